@@ -15,7 +15,15 @@ fi
 mkdir -p "$SCR/src/zzsimrt" "$SCR/src/zzsimharness" "$SCR/src/zzconstructs"
 cp "$HERE"/constructs/*.go "$SCR/src/zzconstructs/" || exit 2
 cp "$HERE"/simrt/*.go "$SCR/src/zzsimrt/" || exit 2
-"$HERE/bin/instrument" -root "$SCR/src" -go $GO -pkgs dhcpv4/nclient4,dhcpv6/nclient6,dhcpv4/server4,dhcpv6/server6,zzconstructs -varpkgs dhcpv4,dhcpv6,rfc1035label,iana -report "$SCR/instrument.json" || { echo "build.sh: instrumentation failed" >&2; exit 2; }
+# Every package of the module that the four concurrent packages depend on is put under the
+# scheduler: the codec packages for synchronisation and package-level variables, anything else
+# (an internal/ helper package a change may introduce for its pending table, worker pool, ...)
+# in full. A package the scheduler does not see would block behind its back ("lost control")
+# and hide happens-before edges from the monitor.
+MOD=$(cd "$SCR/src" && $GO list -m) || exit 2
+EXTRA=$(cd "$SCR/src" && $GO list -deps ./dhcpv4/nclient4 ./dhcpv6/nclient6 ./dhcpv4/server4 ./dhcpv6/server6 2>/dev/null | grep "^$MOD/" | sed "s#^$MOD/##" \
+  | grep -v -x -e dhcpv4/nclient4 -e dhcpv6/nclient6 -e dhcpv4/server4 -e dhcpv6/server6 -e dhcpv4 -e dhcpv6 -e rfc1035label -e iana | tr '\n' ',')
+"$HERE/bin/instrument" -root "$SCR/src" -go $GO -pkgs "${EXTRA}dhcpv4/nclient4,dhcpv6/nclient6,dhcpv4/server4,dhcpv6/server6,zzconstructs" -varpkgs dhcpv4,dhcpv6,rfc1035label,iana -report "$SCR/instrument.json" || { echo "build.sh: instrumentation failed" >&2; exit 2; }
 cp "$HERE"/harness/*.go "$SCR/src/zzsimharness/" || exit 2
 (cd "$SCR/src" && $GO test -vet=off -c -o "$SCR/sim.test" ./zzsimharness) || { echo "build.sh: harness build failed" >&2; exit 2; }
 echo "built $SCR/sim.test"
